@@ -29,7 +29,8 @@ def run(pid, tier, seed):
                 "(fresh hash seeds); the sources include types whose declaration depends on a const parameter, instantiated several times; every "
                 "binary dumps decl/name/inline/decl_concrete/export_to_string/dependencies-as-set of every type, each package asking in its own "
                 "shuffled order (what is asked first must not matter), and "
-                "exports all types through export_all() with 1, 4 and 16 threads in seeded shuffled orders, twice. Oracle: all dumps and all "
+                "exports all types through export_all() with 1, 4 and 16 threads in seeded shuffled orders, twice; then fixed subsets through export() "
+                "(alone) and export_all() mixed in shuffled orders on 1, 4 and 16 threads, twice each, for four choices of the subsets. Oracle: all dumps and all "
                 "exported files (compared path by path) are byte-identical across packages, repetitions, thread counts and orders. In-process: every item is expanded "
                 "20x and the number of distinct raw token orders is recorded (evidence that hash order really varies). distinct_nontrivial "
                 "= types with >= 3 dependencies whose dumps were compared across packages")
@@ -93,26 +94,36 @@ def run(pid, tier, seed):
             for pi, ts in enumerate(trees):
                 for t in ts:
                     chk.add_eval()
-                    digests.add(t["digest"])
+                    if t.get("phase", "all") == "all":
+                        digests.add(t["digest"])
                     if t["n_errors"]:
                         chk.violation("C13|export-error", f"export failed with {t['threads']} threads: {t['errors'][:2]}", t, tags=["export-error"])
             # file by file over every run of every package of this source: one content per path
-            per_path = {}
-            n_runs = 0
-            for pi, ts in enumerate(trees):
-                for t in ts:
-                    n_runs += 1
-                    for path, dg in t["file_digests"].items():
-                        per_path.setdefault(path, {}).setdefault(dg, []).append((pi, t["threads"], t["rep"]))
-            for path, by in sorted(per_path.items()):
-                present = sum(len(v) for v in by.values())
-                if len(by) > 1 or present != n_runs:
-                    example = next((x for ts in trees for t in ts for x in t["differing"] if x["path"] == path), None)
-                    chk.violation(f"C13|file-differs|{path}", f"source {sidx}: {path} has {len(by)} different contents over {n_runs} export runs "
-                                  f"(packages x thread counts x orders){'' if present == n_runs else f', and exists in only {present} of them'}"
-                                  + (f": {str(example)[:400]}" if example else ""),
-                                  {"path": path, "contents": {k: v[:6] for k, v in by.items()}, "example": example}, tags=["tree-differs"])
-            if len(digests) > 1 and not any(len(by) > 1 or sum(len(v) for v in by.values()) != n_runs for by in per_path.values()):
+            # (phase "all": every type through export_all; phase "mixed": fixed subsets through export / export_all)
+            file_diff_found = False
+            for phase in ("all", "mixed0", "mixed1", "mixed2", "mixed3"):
+                per_path = {}
+                n_runs = 0
+                for pi, ts in enumerate(trees):
+                    for t in ts:
+                        if t.get("phase", "all") != phase:
+                            continue
+                        n_runs += 1
+                        for path, dg in t["file_digests"].items():
+                            per_path.setdefault(path, {}).setdefault(dg, []).append((pi, t["threads"], t["rep"]))
+                chk.hist("runs", f"export_runs_compared_{phase}", n_runs)
+                for path, by in sorted(per_path.items()):
+                    present = sum(len(v) for v in by.values())
+                    if len(by) > 1 or present != n_runs:
+                        file_diff_found = True
+                        example = next((x for ts in trees for t in ts for x in t["differing"] if x["path"] == path), None)
+                        chk.violation(f"C13|file-differs|{path}" + ("" if phase == "all" else "|mixed-entry-points"),
+                                      f"source {sidx} [{phase}]: {path} has {len(by)} different contents over {n_runs} export runs "
+                                      f"(packages x thread counts x orders){'' if present == n_runs else f', and exists in only {present} of them'}"
+                                      + (f": {str(example)[:400]}" if example else ""),
+                                      {"path": path, "phase": phase, "contents": {k: v[:6] for k, v in by.items()}, "example": example},
+                                      tags=["tree-differs", phase])
+            if len({t["digest"] for ts in trees for t in ts if t.get("phase", "all") == "all"}) > 1 and not file_diff_found:
                 chk.violation("C13|tree-differs-across-packages", f"source {sidx}: export trees differ between compilations/runs: {sorted(digests)}",
                               {"digests": sorted(digests)}, tags=["tree-differs"])
             chk.hist("runs", "export_runs_compared", sum(len(t) for t in trees))
